@@ -368,6 +368,16 @@ def work(payload, skip, report):
             for o, ob, ex in res:
                 acc.violation(o, {"input": src, "tag": tag, "kind": "html", "spec": [tag, am, content, src]}, ob, ex)
         acc.sample({"html_tags": len([t for t in ctx.allowed_html_tags if t not in HTML_SKIP])})
+    elif kind == "same_page":
+        for first, second in itertools.product(UNFINISHED, SECOND_DOCS):
+            report(i)
+            i += 1
+            res = check_same_page(ctx, first, second)
+            acc.case()
+            acc.distinct("inputs", [first, second])
+            for o, ob, ex in res:
+                acc.violation(o, {"first": first, "input": second, "kind": "same_page"}, ob, ex)
+        acc.sample({"first": UNFINISHED[0], "input": SECOND_DOCS[0]})
     elif kind == "nested":
         for outer, inner, am, content, src in nested_cases(ctx):
             if hash_mod(outer) % payload[2] != payload[1]:
@@ -398,7 +408,37 @@ def work(payload, skip, report):
     return acc
 
 
+# A second parse() on the same page: a text that ends inside an unfinished construct must not change how the next text
+# of the page is parsed (differential: the same document on a freshly started page).
+UNFINISHED = ["an example:\n<pre>\nfoo(bar)\n", "{|\n|a", "''i", "'''b ''i", "[[a|b", "{{t|x", "{{{p|", "<div>d", "<nowiki>n", "* l\n** m",
+              "==h", '<span title="q', "[http://x.y t", "<ref>r", ";t", "<!-- c"]
+SECOND_DOCS = ['{| class="c"\n|+ cap\n|-\n! h1 !! h2\n|-\n| style="s" | a || b\n|}\n', '<span class="c" id="i">content</span> <b>bold</b>',
+               "{{t|a|k=v}} [[l|text]] {{#if:x|y}} [http://x.y label]", "* item\n** sub\n'''bold''' ''it''\n== H ==\ntext\n",
+               "<div>a<ul><li>b</li></ul></div>\n{|\n|x\n|}\n"]
+
+
+def check_same_page(ctx, first, second):
+    ctx.start_page("Tt")
+    want = dump(ctx.parse(second))
+    ctx.start_page("Tt")
+    try:
+        ctx.parse(first)
+        got = dump(ctx.parse(second))
+    except Exception as e:
+        return [("same_page_second_parse", "EXC " + type(e).__name__ + ": " + str(e)[:80], want)]
+    if got != want:
+        return [("same_page_second_parse", got, want)]
+    return []
+
+
 def replay(case):
+    if case.get("kind") == "same_page":
+        ctx = new_ctx()
+        try:
+            res = check_same_page(ctx, case["first"], case["input"])
+        finally:
+            close_ctx(ctx)
+        return [{"oracle": o, "observed": ob, "expected": ex} for o, ob, ex in res]
     ctx = new_ctx()
     exp = Expect(ctx)
     try:
@@ -427,6 +467,7 @@ def main(run):
     for f0 in range(len(CONT)):
         chunks.append(("full2x2", [f0]))
     chunks.append(("html",))
+    chunks.append(("same_page",))
     for k in range(8):
         chunks.append(("nested", k, 8))
     for form in ("template", "parserfn", "param", "link", "extlink"):
@@ -444,7 +485,7 @@ def main(run):
                 "paired and void tag of the allowed-HTML table (special-purpose tags excluded) x 5 attribute maps (one with mixed-case names) x 2 quote styles x 6 "
                 "contents; every ordered pair (outer, inner) of those tags where the declared parents/content data permit the nesting, "
                 "written <outer>p<inner>r</inner>q</outer> with and without an attribute map on the inner element; template / parser-function / parameter / link calls with every argument list of length <= 3 over %d atoms "
-                "and external links. distinct = distinct generated inputs." % (3 if q else 4, len(ARG_ATOMS)),
+                "and external links; %d texts that end inside an unfinished construct x %d documents parsed next on the same page. distinct = distinct generated inputs." % (3 if q else 4, len(ARG_ATOMS), len(UNFINISHED), len(SECOND_DOCS)),
         "exhaustive": True,
     }
     assumptions = [
